@@ -136,6 +136,10 @@ func (p *CodeBuilder) ValWithUnit(v *ast.BasicLit, t types.Type, unit string) *C
 	if isFloat(t) {
 		e.Val = &target.BasicLit{Kind: token.FLOAT, Value: floatVal(val)}
 	} else {
+		if val = constant.ToInt(val); val.Kind() != constant.Int {
+			panicUnitErr(p, v, unit, "literal with unit: %s%s (%s) is not an integer value of `%s.%s`", v.Value, unit, e.CVal.ExactString(), id.pkg, id.name)
+		}
+		e.CVal = val
 		e.Val = &target.BasicLit{Kind: token.INT, Value: val.ExactString()}
 	}
 	e.Type = t
